@@ -124,14 +124,15 @@ verus_unit("contextv", "contextv", ["C17"], [
     "AirContext::new_multi_segment (whenever the constructor returns: ce_blowup_factor >= every main and auxiliary constraint's degree bound and >= 2, the LDE blowup >= ce_blowup_factor, at least one main degree and assertion, auxiliary degrees / assertions exactly for multi-segment traces, a Lagrange column only as the last auxiliary column, exemption count 1, all arguments stored unchanged; documented panics modelled as not returning)"])
 
 
-verus_unit("oodv", "oodv", ["C03", "C06", "C12", "C04"], [
+verus_unit("oodv", "oodv", ["C03", "C06", "C12", "C04", "C05"], [
     "TraceOodFrame::to_trace_states / TraceOodFrame::hash (what the coin absorbs for the out-of-domain trace frame: the hash of the current / next evaluations interleaved per column followed by the Lagrange kernel frame values, every width)",
     "OodFrame::parse (every main / auxiliary width up to 255, every number of evaluations, every Lagrange frame size, EVERY content of the three byte vectors, abstract element decoder: Ok exactly when each section is canonical - Lagrange section = size byte k + exactly k element encodings, k > 0 only with an auxiliary segment; trace-state section = the byte 2 + exactly 2 * (main + aux') encodings; evaluation section = exactly num_evaluations encodings; nothing may follow in any section - and then the rows are the de-interleaved decoded elements, exactly main + aux' wide; no overflow / underflow / out-of-range index on any input)",
     "TraceOodFrame::new",
     "Commitments::new (trace roots, constraint root, FRI roots, in that order) and its round trip with Commitments::parse for every number of roots (relative to the digest round trip)",
     "Commitments::parse (every number of trace segments and FRI layers, every byte content: Ok exactly when the bytes are num_trace_segments + 1 + num_fri_layers + 1 digest encodings and nothing else; the three results are those digests in order)",
     "Table::from_bytes (every admissible row / column count, every byte content: the first rows * cols element encodings, row-major; Err exactly when they cannot be decoded; the four assertions never fire for counts in 1..=255)",
-    "Queries::parse (every byte content of the value and path vectors, 1..=255 queries x 1..=255 values per query: Ok exactly when the value bytes are exactly queries * values * ELEMENT_BYTES long, decode to that many elements, the path bytes decode to a batch Merkle proof for the row hashes at depth log2(domain size), and nothing follows; the results are that proof and that table; no overflow; BatchMerkleProof::deserialize is a named contract proved in unit containerv, the row iterator and ilog2 / is_power_of_two are assumed std-style shims)"])
+    "Queries::parse (every byte content of the value and path vectors, 1..=255 queries x 1..=255 values per query: Ok exactly when the value bytes are exactly queries * values * ELEMENT_BYTES long, decode to that many elements, the path bytes decode to a batch Merkle proof for the row hashes at depth log2(domain size), and nothing follows; the results are that proof and that table; no overflow; BatchMerkleProof::deserialize is a named contract proved in unit containerv, the row iterator and ilog2 / is_power_of_two are assumed std-style shims)",
+    "FriProof::parse_remainder / num_remainder_elements (every byte content: Ok exactly when the implied number of elements - byte length / ELEMENT_BYTES - is a power of two, the bytes decode to that many elements and nothing follows; the result is those elements)"])
 
 
 verus_unit("proofserdev", "proofserdev", ["C12", "C03"], [
